@@ -362,7 +362,10 @@ impl Prop for C12 {
                 let depth = 1 + cx.rng.usize(4);
                 let big = 1i64 << 30;
                 let word: Vec<Letter> = (0..depth).map(|_| { let i = cx.rng.usize(14); letter(i, (cx.rng.range(-big, big), cx.rng.range(-big, big))) }).collect();
-                let pts: Vec<P> = (0..6).map(|_| (cx.rng.range(-big, big), cx.rng.range(-big, big))).collect();
+                // the points themselves are as arbitrary as the offsets: beyond 32 bits in two cases out of three (a coordinate is an `isize`;
+                // everything up to 2^48 is exact in the library's double-precision matrices)
+                let pbig = *cx.rng.pick(&[1i64 << 30, 1 << 33, 1 << 45]);
+                let pts: Vec<P> = (0..6).map(|_| (cx.rng.range(-pbig, pbig), cx.rng.range(-pbig, pbig))).collect();
                 cx.nontrivial(crate::rt::prng::strhash(&format!("{:?}", word)));
                 self.check_word(cx, &word, &pts);
                 cx.sample(|| describe(&word));
